@@ -119,7 +119,7 @@ def finish (st : LoopSt) (tok : Tok) (p : Parser) (lv : Level) (li : Nat) (scan 
     LoopSt × Out :=
   let p := p.setLvl li lv
   if p.err ≠ .none then ({ st with p := p, scan := scan }, .ret false) else
-  let st := { st with p := { p with ncb := p.ncb + 1 }, scan := scan, ev := (tok, p.getLvl p.cur) :: st.ev }
+  let st := { st with p := p, scan := scan, ev := (tok, p.getLvl p.cur) :: st.ev }
   if force || has scan [.verify, .leaveObj, .value, .leaveArr] then (st, .cont) else (st, .stop)
 
 def caseObjBegin (st : LoopSt) (p : Parser) (lv : Level) (li : Nat) (scan : Option Scan) : LoopSt × Out :=
@@ -152,22 +152,35 @@ def caseObjEnd (st : LoopSt) (p : Parser) (lv : Level) (li : Nat) (scan : Option
     else if p.depth = 1 then
       let p := { p with depth := 0, cur := 0 }
       let p := if p.used ≠ p.size then { p with err := .format } else p
-      ({ st with p := { p with ncb := p.ncb + 1 }, scan := scan, ev := (.objEnd, p.getLvl p.cur) :: st.ev }, .ret false)
+      ({ st with p := p, scan := scan, ev := (.objEnd, p.getLvl p.cur) :: st.ev }, .ret false)
     else ({ st with p := { p with err := .format }, scan := scan }, .ret false)
   else ({ st with p := p.setLvl li lv, scan := scan }, .ret false)
 
+/-- the range `memcmp` reads of a stored name, if there is one -/
+def touchName (p : Parser) (n : Option Span) : Parser :=
+  match n with
+  | some pn => p.touchBuf pn.off pn.len
+  | none => p
+
+/-- lines 1053-1060: the new name must be strictly greater than the previous name of this level -/
+def nameOrdErr (p : Parser) (lv : Level) (consumed : Span) : Bool :=
+  match lv.name with
+  | some pn => decide (cmpBytes (p.slice pn) (p.slice consumed) ≥ 0)
+  | none => false
+
+/-- lines 1066-1068: the name read is already greater than the name looked for -/
+def overshoot (p : Parser) (consumed : Span) (scanName : Option (List UInt8)) : Bool :=
+  match scanName with
+  | some sn => decide (cmpBytes (p.slice consumed) sn > 0)
+  | none => false
+
 def caseFieldName (st : LoopSt) (p : Parser) (lv : Level) (li : Nat) (scan : Option Scan)
     (consumed : Span) (bc : Nat) (scanName : Option (List UInt8)) (oa od : Nat) : LoopSt × Out :=
-  let nameBytes := p.slice consumed
-  let ordErr : Bool := match lv.name with
-    | some pn => decide (cmpBytes (p.slice pn) nameBytes ≥ 0)
-    | none => false
-  if ordErr then finish st .fieldName { p with err := .format } lv li scan false else
+  -- the two `memcmp` ranges of `_cmp_name(&state->current_name, &consumed)`
+  let p := touchName (p.touchBuf consumed.off consumed.len) lv.name
+  if nameOrdErr p lv consumed then finish st .fieldName { p with err := .format } lv li scan false else
   if oa = lv.ad ∧ od = p.depth then
-    let over : Bool := match scanName with
-      | some sn => decide (cmpBytes nameBytes sn > 0)
-      | none => false
-    if over then
+    if overshoot p consumed scanName then
       let p := { p with used := p.used - bc }
       ({ st with p := p.setLvl li { lv with flags := .expField }, scan := scan }, .ret false)
     else
@@ -195,7 +208,7 @@ def caseArrEnd (st : LoopSt) (p : Parser) (lv : Level) (li : Nat) (scan : Option
       if p.ptype = 2 ∧ p.depth = 1 then
         let p := p.setLvl li lv
         let p := if p.used ≠ p.size then { p with err := .format } else p
-        ({ st with p := { p with ncb := p.ncb + 1 }, scan := scan, ev := (.arrEnd, p.getLvl p.cur) :: st.ev }, .ret false)
+        ({ st with p := p, scan := scan, ev := (.arrEnd, p.getLvl p.cur) :: st.ev }, .ret false)
       else finish st .arrEnd p lv li scan false
     else finish st .arrEnd p { lv with flags := .arr1 } li scan false
   else ({ st with p := p.setLvl li lv, scan := scan }, .ret false)
